@@ -97,6 +97,7 @@ impl Monitor for C01 {
                 Ctor::FromBoxed => "ctor:from_boxed_dyn_read",
                 Ctor::FromBufReader(_) => "ctor:from_buf_reader",
                 Ctor::AfterPreamble(..) => "ctor:new_on_advanced_reader",
+                Ctor::Prefetched(_) => "ctor:new_on_reader_that_looked_ahead_to_the_end",
             });
             runs.push(Run {
                 policy: random_policy(rng, len),
@@ -130,7 +131,21 @@ impl Monitor for C01 {
         }
         for run in &runs {
             let seed = rng.next();
-            let src = Src::new(data.clone(), run.policy.clone(), seed).with_boundaries();
+            let mut src = Src::new(data.clone(), run.policy.clone(), seed).with_boundaries();
+            let mut storm = String::new();
+            if rng.chance(1, 8) {
+                // a long run of consecutive Interrupted results before one of the first reads (possibly
+                // the one that reports the end): "transiently interrupted" has no length limit
+                let at = 1 + rng.below(8);
+                let n = if rng.chance(1, 40) {
+                    *rng.pick(&[1000u32, 4097, 70000])
+                } else {
+                    *rng.pick(&[64u32, 127, 128, 129, 130, 255, 256, 257])
+                };
+                src = src.with_storm(at, n);
+                storm = format!(", {} consecutive Interrupted results at read call {}", n, at);
+                rep.inc("runs_with_an_interrupt_storm");
+            }
             let tr: Trace = sut(|| drive::run_collect(run.cfg, run.ctor, src.clone()));
             rep.inc("pairs");
             let log = src.log();
@@ -188,7 +203,7 @@ impl Monitor for C01 {
                         .set("reference_parser", J::s(cfg.describe()))
                         .set("input", J::bytes(bytes))
                         .set("input_class", J::s(input.class.name()))
-                        .set("schedule", J::s(run.policy.describe()))
+                        .set("schedule", J::s(format!("{}{}", run.policy.describe(), storm)))
                         .set("schedule_seed", J::U(seed))
                         .set("ctor", J::s(run.ctor.describe()))
                         .set("outcome", J::s(tr.outcome.describe()))
